@@ -192,7 +192,7 @@ register(
     "Structural clauses of completion: (R11c) every push into the per-file view is guarded by the seen-set (one entry "
     "per name); (R8c) the textual fallback recognises every decorator module the AST recogniser accepts. Context "
     "classification per line, the offered set algebra and sort priorities are not decided.",
-    [r8.r11c_one_entry_per_name, r8.r8c_text_fallback] + CACHE,
+    [r8.r11c_one_entry_per_name, r8.r8c_text_fallback, r8.r8e_text_fallback_on_every_miss] + CACHE,
 )
 
 from . import r7
@@ -206,7 +206,7 @@ register(
     "their progress step on every path and the dependency-graph worklist expands each node once. Other panic sources "
     "(slice bounds, usize arithmetic, range order), panics inside dependencies, stack exhaustion and scan isolation are "
     "not decided.",
-    [r7.r7_slicing, r7.r7_range_order, r7.r7_sub_underflow, r7.r7_u32_overflow, r7.r7_unwrap, r1e.r1e_loop_progress, r1.r1a_reentrancy, r1.r1b_order, r1.r1c_await, r1.r1d_recursion],
+    [r7.r7_slicing, r7.r7_range_order, r7.r7_sub_underflow, r7.r7_index_bounds, r7.r7_u32_overflow, r7.r7_unwrap, r1e.r1e_loop_progress, r1.r1a_reentrancy, r1.r1b_order, r1.r1c_await, r1.r1d_recursion],
 )
 
 from . import r10
